@@ -518,7 +518,8 @@ def plan_case(plan, rng=None, rep=2):
     if rng is not None:
         rng.shuffle(envl)
     env = [[env_name(tuple(e["path"])), e["nil"], None] if "nil" in e else
-           [env_name(tuple(e["path"])), raw_value(e["value"], rng, tuple(e["path"])), e["value"]] for e in envl]
+           [env_name(tuple(e["path"])), e["raw"] if "raw" in e else raw_value(e["value"], rng, tuple(e["path"])), e["value"]]
+           for e in envl]
     n = len(env)
     orders = [list(range(n))]
     if n > 1 and rng is not None:
@@ -528,6 +529,13 @@ def plan_case(plan, rng=None, rep=2):
     case = {"fam": "config", "op": "cfg", "env": env, "orders": orders, "rep": rep}
     if ftree is not None:
         case["file"] = json.dumps(subst(ftree), ensure_ascii=False)
+        plain = {tuple(e["path"]): e["raw"] for e in plan if e["file"] and e.get("plain")}
+        if plain:
+            # the file as an operator writes it: block YAML, the marked string leaves unquoted; `file_quoted` is the twin
+            # with every scalar quoted (used to tell "the file part alone is no valid configuration" from "the validation
+            # reads the unquoted text differently")
+            case["file_quoted"] = case["file"]
+            case["file"] = to_yaml(subst(ftree), plain)
     return case
 
 
@@ -719,4 +727,183 @@ def site_cases():
                     ic["RD"] = dict(ic["R"], defaults=dd)
             res.append({"path": list(path), "type": typ, "text": text, "other": other, "sibling": [list(spath), sval],
                         "default": None if dflt is None else dflt[2], "file_tree": ftree, "impl": ic})
+    return res
+
+
+# ---------------------------------------------------------------------------------------------------------------
+# dialect: texts whose reading differs between YAML dialects / decoders, written UNQUOTED into the file as values of
+# string options (and given by variables), with the real schema validation of the file in the loop
+
+DIALECT_WORDS = ["yes", "no", "on", "off", "y", "n", "Yes", "NO", "On", "OFF", "Y", "N"]       # YAML 1.1 booleans
+DIALECT_OTHER = ["~", "null", "0o17", "017", "0x1F", "1_000", "1e3", ".inf", ".NaN", "2001-12-14", "<<", "=", "1:30"]
+
+
+def quoted_forms(texts):
+    return [('"%s"' if k % 2 == 0 else "'%s'") % t for k, t in enumerate(texts)]
+
+
+DIALECT_POOL = DIALECT_WORDS + DIALECT_OTHER + quoted_forms(DIALECT_WORDS + DIALECT_OTHER)
+# texts every decoder of the unchanged tree reads as the string written (asserted against the Lean model on every run:
+# theorem c20_dialect_words_are_strings); planted unquoted into the files of the typed stream
+DIALECT_STRINGS = ["yes", "no", "on", "off", "y", "n", "Yes", "NO", "On", "OFF", "Y", "N", "<<", "=", "1:30", "12:30"]
+# readings only (cheap): the wider neighbourhood of the pool, the fidelity of the Lean reading model
+DIALECT_FIDELITY = [
+    "YES", "No", "ON", "Off", "Null", "NULL", "true", "True", "TRUE", "false", "False", "FALSE", "tRue", "t", "T", "f", "F",
+    "o", "O", "0x1f", "0X1f", "1E3", "-.inf", "+.inf", ".Inf", ".INF", ".iNf", ".nan", ".NAN", "2001-12-14T21:59:43Z",
+    "2001-12-14 21:59:43", "2001-12-14t21:59:43.10-05:00", "2001-12-14T1:2:3+01:00", "2001-1-1", "2001-13-14",
+    "2001-02-30", "2000-02-29", "1900-02-29", "2001-12-14T21:59:43", "2001-12-14 21:59:43Z", "2001-12-14x", "20011-12-14",
+    "190:20:30", "12:30:45", "1:30.5", "-1:30", "0:0", "0b11", "0B11", "0b12", "0b2", "0b-1", "0o-7", "-0b11", "-0o17",
+    "0O17", "-0x1f", "+5", "08", "09", "-017", "0o8", "1.0", "1.10", ".5", "5.", "-0", "+0", "00", "0", "-1", "123456",
+    "9223372036854775807", "9223372036854775808", "18446744073709551615", "18446744073709551616",
+    "-9223372036854775808", "-9223372036854775809", "1__0", "_1", "1_", "0x", "0x_1f", "0_17", "0o_17", "0x1_F", "4_2",
+    "1e400", "1e-3", "1e-400", "12e03", "1.5e3", "0.1", "-.5", "+.5", "1e+3", "0e0", "0.0", "-0.0", "1e3_0", "1_0e3",
+    "1_0.5", "1,000", "infinity", "NaN", "nan", "1e", "e3", "0e", "1.e3", "1.2.3", "abc", "x y", "--", "+", ".", ":a",
+    "'tRue'", "\"0x1f\"", "' '", "\"\"",
+]
+
+
+# references to environment variables in the FILE (documented: `${var}`, `${var=default}`, `${var:=default}`): the loader
+# resolves them before YAML reads the file; text -> what the file says after the substitution (the harness sets
+# VERIFC20SUB_PORT=9000, VERIFC20SUB_FLAG=true, VERIFC20SUB_HOST=yes)
+DIALECT_SUBST = {"${VERIFC20SUB_PORT}": "9000", "${VERIFC20SUB_FLAG}": "true", "${VERIFC20SUB_HOST}": "yes",
+                 "${VERIFC20SUB_UNSET:=4460}": "4460", "${VERIFC20SUB_UNSET}": "", "p${VERIFC20SUB_PORT}": "p9000"}
+
+
+_PLAIN_KEY = _re.compile(r"^[A-Za-z_][A-Za-z0-9_.-]*$")
+
+
+def _yaml_key(k):
+    if _PLAIN_KEY.match(k) and k.lower() not in _YAML_WORDS:
+        return k
+    return json.dumps(k, ensure_ascii=False)
+
+
+def to_yaml(tree, plain=None, path=(), indent=0):
+    """block-style YAML of a JSON tree; scalars as JSON writes them (strings double quoted) except the leaves listed in
+    `plain` ({path: text}), whose text is written verbatim"""
+    plain = plain or {}
+    pad = " " * indent
+    if isinstance(tree, dict) and tree:
+        out = []
+        for k, v in tree.items():
+            sub = to_yaml(v, plain, path + (k,), indent + 2)
+            if isinstance(v, (dict, list)) and v:
+                out.append(pad + _yaml_key(k) + ":\n" + sub)
+            else:
+                out.append(pad + _yaml_key(k) + ": " + sub.strip(" ") )
+        return "".join(o if o.endswith("\n") else o + "\n" for o in out)
+    if isinstance(tree, list) and tree:
+        out = []
+        for i, v in enumerate(tree):
+            sub = to_yaml(v, plain, path + (i,), indent + 2)
+            if isinstance(v, (dict, list)) and v:
+                out.append(pad + "-\n" + sub)
+            else:
+                out.append(pad + "- " + sub.strip(" "))
+        return "".join(o if o.endswith("\n") else o + "\n" for o in out)
+    if path in plain:
+        return pad + plain[path] + "\n"
+    if isinstance(tree, dict):
+        return pad + "{}\n"
+    if isinstance(tree, list):
+        return pad + "[]\n"
+    return pad + json.dumps(tree, ensure_ascii=False) + "\n"
+
+
+def dialect_leaf(path, v):
+    """a string leaf into which a dialect-sensitive text can be planted: string fields of the Configuration struct and
+    string members of the free-form mechanism configs (header / cookie templates, subject, realm, credentials)"""
+    if not isinstance(v, str) or not path or isinstance(path[-1], int):
+        return False
+    if typed_string_leaf(path):
+        return True
+    if "config" in path:
+        return path[-1] in ("subject", "realm", "user_id", "password") or \
+            (len(path) >= 2 and path[-2] in ("headers", "cookies"))
+    return False
+
+
+def plant_dialect(rng, cfg, strings=None):
+    """replaces the values of 1-3 string leaves of `cfg` by different dialect-sensitive strings; returns their paths"""
+    strings = strings or DIALECT_STRINGS
+    cands = [p for p, v in leaves(cfg) if dialect_leaf(p, v)]
+    if not cands:
+        return []
+    chosen = rng.sample(cands, min(len(cands), rng.randint(1, 3)))
+    texts = rng.sample(strings, len(chosen))
+    for p, t in zip(chosen, texts):
+        node = cfg
+        for seg in p[:-1]:
+            node = node[seg]
+        node[p[-1]] = t
+    return chosen
+
+
+def gen_plain_plan(rng, cfg, planted, mode, required=frozenset()):
+    """'plain': the complete file with the planted leaves unquoted, no variables; 'plainopt': leaves outside lists whose
+    name no schema object requires move to the environment (the planted ones with probability 1/2, as plain text), the
+    rest stays in the file with the planted leaves unquoted"""
+    planted = {tuple(p) for p in planted}
+    plan = []
+    for p, v in leaves(cfg):
+        e = {"path": list(p), "value": v, "env": False, "file": True, "file_value": v}
+        in_list = any(isinstance(x, int) for x in p)
+        if p in planted:
+            e["raw"] = v
+            e["plain"] = True
+        if mode == "plainopt" and not in_list and p[-1] not in required and rng.random() < (0.5 if p in planted else 0.4):
+            e["env"], e["file"] = True, False
+        plan.append(e)
+    return plan
+
+
+# (name, leaf type for the loader, path in the configuration, the other leaves of a minimal valid configuration,
+#  path of the leaf in the dump of the loaded Configuration)
+_STUB_A = [(("mechanisms", "authenticators", 0, "id"), "a0"), (("mechanisms", "authenticators", 0, "type"), "anonymous")]
+_STUB_F = [(("mechanisms", "finalizers", 0, "id"), "f0"), (("mechanisms", "finalizers", 0, "type"), "noop")]
+DIALECT_SITES = [
+    ("serve.proxy.host", "string", ("serve", "proxy", "host"), [], ("serve", "proxy", "host")),
+    ("key store password", "string", ("serve", "decision", "tls", "key_store", "password"),
+     [(("serve", "decision", "tls", "key_store", "path"), "/etc/heimdall/keys.pem")],
+     ("serve", "decision", "tls", "keystore", "password")),
+    ("tls key_id", "string", ("serve", "management", "tls", "key_id"),
+     [(("serve", "management", "tls", "key_store", "path"), "/etc/heimdall/keys.pem")],
+     ("serve", "management", "tls", "keyid")),
+    ("mechanism id", "string", ("mechanisms", "authenticators", 0, "id"),
+     [(("mechanisms", "authenticators", 0, "type"), "anonymous")] + _STUB_F, ("prototypes", "authenticators", 0, "id")),
+    ("profiling.host", "string", ("profiling", "host"), [], ("profiling", "host")),
+    ("header template", "any", ("mechanisms", "finalizers", 0, "config", "headers", "x_authenticated"),
+     [(("mechanisms", "finalizers", 0, "id"), "mark"), (("mechanisms", "finalizers", 0, "type"), "header")] + _STUB_A,
+     ("prototypes", "finalizers", 0, "config", "headers", "x_authenticated")),
+    ("cookie template", "any", ("mechanisms", "finalizers", 0, "config", "cookies", "sess"),
+     [(("mechanisms", "finalizers", 0, "id"), "ck"), (("mechanisms", "finalizers", 0, "type"), "cookie")] + _STUB_A,
+     ("prototypes", "finalizers", 0, "config", "cookies", "sess")),
+    ("anonymous subject", "any", ("mechanisms", "authenticators", 0, "config", "subject"), _STUB_A + _STUB_F,
+     ("prototypes", "authenticators", 0, "config", "subject")),
+    ("kubernetes auth_class", "any", ("providers", "kubernetes", "auth_class"), [], ("providers", "kubernetes", "auth_class")),
+    ("www_authenticate realm", "any", ("mechanisms", "error_handlers", 0, "config", "realm"),
+     [(("mechanisms", "error_handlers", 0, "id"), "w"), (("mechanisms", "error_handlers", 0, "type"), "www_authenticate")]
+     + _STUB_A + _STUB_F, ("prototypes", "errorhandlers", 0, "config", "realm")),
+    ("basic_auth password", "any", ("mechanisms", "authenticators", 0, "config", "password"),
+     [(("mechanisms", "authenticators", 0, "id"), "b"), (("mechanisms", "authenticators", 0, "type"), "basic_auth"),
+      (("mechanisms", "authenticators", 0, "config", "user_id"), "u")] + _STUB_F,
+     ("prototypes", "authenticators", 0, "config", "password")),
+]
+
+
+def dialect_cases(texts=None, sites=None):
+    """one case per (site, text): the minimal configuration with the text UNQUOTED at the leaf in the FILE (F: real
+    NewConfiguration incl. the real schema validation), the same configuration given by VARIABLES only with the text as
+    the value of the leaf's variable (E), and the configuration without the leaf from variables (N: the default)"""
+    res = []
+    for name, typ, path, rest, dump in (sites or DIALECT_SITES):
+        others = [[env_name(p), raw_value(v), v] for p, v in rest]
+        ncase = {"fam": "config", "op": "cfg", "rep": 1, "env": others, "at": list(dump)}
+        for text in (texts or DIALECT_POOL):
+            tree = build(list(rest) + [(path, "?")])
+            fcase = {"fam": "config", "op": "cfg", "rep": 1, "env": [], "at": list(dump),
+                     "file": to_yaml(tree, {tuple(path): text})}
+            ecase = {"fam": "config", "op": "cfg", "rep": 2, "env": others + [[env_name(path), text, None]], "at": list(dump)}
+            res.append({"site": name, "type": typ, "path": list(path), "text": text, "file_case": fcase, "env_case": ecase,
+                        "default_case": ncase})
     return res
